@@ -50,13 +50,14 @@ type acquire struct {
 }
 
 type pkgInfo struct {
-	fset    *token.FileSet
-	files   map[string]*ast.File
-	structs map[string]map[string]string // type -> field -> type expression string
-	units   map[string]*unit
-	order   []string
-	methods map[string]bool // "Type.method"
-	funcs   map[string]bool
+	fset     *token.FileSet
+	files    map[string]*ast.File
+	structs  map[string]map[string]string // type -> field -> type expression string
+	units    map[string]*unit
+	order    []string
+	methods  map[string]bool // "Type.method"
+	funcs    map[string]bool
+	wrappers map[string]acquire // "Type.method" -> the lock a func-valued argument runs under
 }
 
 func typeString(e ast.Expr) string {
@@ -191,6 +192,7 @@ func loadPkg(dir string) (*pkgInfo, error) {
 			return true
 		})
 	}
+	p.findWrappers()
 	for _, name := range p.order {
 		p.scan(p.units[name])
 	}
@@ -261,7 +263,64 @@ func walkUnit(body *ast.BlockStmt, f func(ast.Node) bool) {
 	})
 }
 
+// findWrappers: methods of the shape `func (x *T) with(f func()) { x.mu.Lock(); defer x.mu.Unlock(); f() }` (or the
+// read-lock variant): a function literal passed to them runs with that lock held.
+func (p *pkgInfo) findWrappers() {
+	p.wrappers = map[string]acquire{}
+	for _, n := range p.order {
+		u := p.units[n]
+		if u.decl == nil || u.goLit || u.decl.Recv == nil || u.body == nil || len(u.body.List) != 3 {
+			continue
+		}
+		prm := ""
+		if pl := u.decl.Type.Params.List; len(pl) == 1 && len(pl[0].Names) == 1 {
+			if ft, ok := pl[0].Type.(*ast.FuncType); ok && (ft.Params == nil || len(ft.Params.List) == 0) && (ft.Results == nil || len(ft.Results.List) == 0) {
+				prm = pl[0].Names[0].Name
+			}
+		}
+		if prm == "" {
+			continue
+		}
+		es, ok1 := u.body.List[0].(*ast.ExprStmt)
+		ds, ok2 := u.body.List[1].(*ast.DeferStmt)
+		cs, ok3 := u.body.List[2].(*ast.ExprStmt)
+		if !ok1 || !ok2 || !ok3 {
+			continue
+		}
+		lc, ok := es.X.(*ast.CallExpr)
+		if !ok {
+			continue
+		}
+		l, op, ok := lockCall(p, u, lc)
+		l2, op2, okd := lockCall(p, u, ds.Call)
+		fc, okc := cs.X.(*ast.CallExpr)
+		if !ok || !okd || !okc || l != l2 || len(fc.Args) != 0 {
+			continue
+		}
+		if id, ok := fc.Fun.(*ast.Ident); !ok || id.Name != prm {
+			continue
+		}
+		switch {
+		case op == "Lock" && op2 == "Unlock":
+			p.wrappers[n] = acquire{lock: l, mode: 2}
+		case op == "RLock" && op2 == "RUnlock":
+			p.wrappers[n] = acquire{lock: l, mode: 1}
+		}
+	}
+}
+
 func (p *pkgInfo) scan(u *unit) {
+	// function literals handed to a lock wrapper run under its lock
+	walkUnit(u.body, func(nd ast.Node) bool {
+		if call, ok := nd.(*ast.CallExpr); ok && len(call.Args) == 1 {
+			if fl, ok := call.Args[0].(*ast.FuncLit); ok {
+				if w, ok := p.wrappers[p.callee(u, call)]; ok {
+					u.acq = append(u.acq, acquire{w.lock, w.mode, fl.Body.Lbrace, fl.Body.Rbrace})
+				}
+			}
+		}
+		return true
+	})
 	// local variables built from composite literals of the package's struct types: x := T{...} / &T{...}
 	ast.Inspect(u.body, func(nd ast.Node) bool {
 		as, ok := nd.(*ast.AssignStmt)
